@@ -82,6 +82,61 @@ theorem rate_data_verbatim (c : RateCfg) (f9 : Bytes → Nat → Nat → Nat) (t
       | .unconfirmedLast => bitsToBytes (slice bs 0 (8 * c.total - 32)) :=
   RateData.dec_data_verbatim c f9 t bs p h
 
+/-! ## check fields: the received field, verbatim (round 3)
+
+The CRC-field instances of the statements above.  They hold for **every** opcode, feature set id, data packet
+format and block type (all are quantified through `bs`) and for every relation between the received check value
+and the right one — right, octets exchanged, bits reversed, complemented, rotated, masked with another data
+type's mask, unmasked, not inverted, computed by another CRC convention: `f` / `g` / `f9` (the right value) do not
+occur in the conclusions.  The one value a constructor replaces is its all-zero "compute it" sentinel.  The harness
+drives the real code with all those transforms of the right value (taken from the library's CRC and from an
+independent computation), crossed with every opcode / feature set id / selector value, against these models. -/
+
+/-- CSBK (all nine opcodes, every feature set id): a non-zero received CRC field is returned as it is -/
+theorem csbk_crc_verbatim (f : Bits → Nat) (bs : Bits) (p : Csbk) (h : Csbk.dec f bs = .ok p)
+    (hz : getField bs 80 16 ≠ 0) : p.crc = getField bs 80 16 := Csbk.dec_crc_verbatim f bs p h hz
+
+/-- … and an all-zero one is the sentinel: replaced by the CRC function of the 80 bits the object serialises to -/
+theorem csbk_crc_zero (f : Bits → Nat) (bs : Bits) (p : Csbk) (h : Csbk.dec f bs = .ok p)
+    (hz : getField bs 80 16 = 0) : p.crc = f (slice (Csbk.enc { p with crc := 0 }) 0 80) :=
+  Csbk.dec_crc_zero f bs p h hz
+
+/-- … and `as_bits` writes the CRC attribute at bits 80..95 as it is -/
+theorem csbk_crc_enc_verbatim (p : Csbk) (h : p.WF) : slice (Csbk.enc p) 80 16 = natToBits 16 p.crc :=
+  Csbk.enc_crc_verbatim p h
+
+/-- data header (all five formats): a non-zero received CRC field is returned as it is -/
+theorem dh_crc_verbatim (f : Bits → Nat) (bs : Bits) (p : DataHeader) (h : DataHeader.dec f bs = .ok p)
+    (hz : allZero (slice bs 80 16) = false) : p.crc = slice bs 80 16 := DataHeader.dec_crc_verbatim f bs p h hz
+
+theorem dh_crc_enc_verbatim (p : DataHeader) (h : p.WF) : slice (DataHeader.enc p) 80 16 = p.crc :=
+  DataHeader.enc_crc_verbatim p h
+
+/-- short LC (both SLCOs): a non-zero received CRC-8 is returned as it is, in the order it was received -/
+theorem slc_crc_verbatim (g : Bits → Bits) (bs : Bits) (p : ShortLc) (h : ShortLc.dec g bs = .ok p)
+    (hz : allZero (slice bs 28 8) = false) : p.crc = slice bs 28 8 := ShortLc.dec_crc_verbatim g bs p h hz
+
+theorem slc_crc_enc_verbatim (p : ShortLc) (h : p.WF) : slice (ShortLc.enc p) 28 8 = p.crc :=
+  ShortLc.enc_crc_verbatim p h
+
+/-- rate ½ / ¾ / 1 blocks: serial number, CRC-9 (sent least significant bit first; non-zero) and CRC-32 are the
+received bits at the position the block type fixes -/
+theorem rate_checks_verbatim (c : RateCfg) (f9 : Bytes → Nat → Nat → Nat) (t : RateType) (bs : Bits) (p : RateData)
+    (h : RateData.dec c f9 t bs = .ok p) :
+    (t = .confirmed ∨ t = .confirmedLast →
+        p.dbsn = getField bs 0 7 ∧ (bitsToNat (slice bs 7 9).reverse ≠ 0 → p.crc9 = bitsToNat (slice bs 7 9).reverse))
+    ∧ (t = .unconfirmedLast ∨ t = .confirmedLast → p.crc32 = getField bs (8 * c.total - 32) 32) :=
+  RateData.dec_checks_verbatim c f9 t bs p h
+
+/-- non-vacuity, the shape of the seeded change: a Hytera IPSC sync CSBK with feature set id 0x08 / 0x68 whose CRC
+field is the right CRC (whatever `f` says it is: here the constant 0xD834) with its two octets exchanged decodes to
+that exchanged value, and re-serialises to the received bits -/
+example : ([0x08, 0x68].all fun fid =>
+    let bs := bytesToBits [0x88, fid, 0x00, 0x00, 0x09, 0x5A, 0x23, 0x43, 0xAE, 0x20, 0x34, 0xD8]
+    match Csbk.dec (fun _ => 0xD834) bs with
+    | .ok p => p.crc == 0x34D8 && Csbk.enc p == bs && p.payload == .hyteraIpscSync [0x00, 0x00, 0x09, 0x5A, 0x23, 0x43, 0xAE, 0x20]
+    | .error _ => false) = true := by decide +kernel
+
 /-! ## encode side: the field's bits stand at the field's position -/
 
 theorem flc_alias_header_enc_verbatim (pf : Bool) (fid : Nat) (crc : Bits) (fmt len : Nat) (msb : Bool)
